@@ -97,8 +97,42 @@ func (c *Ctx) checkChangeCounter(r *Report, rule string) {
 		if counts[fname] > 1 {
 			desc += " #" + itoa(counts[fname])
 		}
-		// the guarded increment: an If on owner.depth == 0 whose true successor increments owner.numSet
-		sat := func(in ssa.Instruction) bool {
+		// the guarded increment: an If on owner.depth == 0 whose true successor increments owner.numSet,
+		// or a call on the owner of a method that is nothing but that (every path from its entry passes the
+		// guarded increment of its receiver)
+		var sat func(in ssa.Instruction) bool
+		sat = func(in ssa.Instruction) bool {
+			if call, ok := in.(*ssa.Call); ok {
+				callee := call.Common().StaticCallee()
+				if callee == nil || !isModuleSSA(callee) || len(callee.Params) == 0 || len(call.Common().Args) == 0 || !sameValue(call.Common().Args[0], w.owner) {
+					return false
+				}
+				recv := callee.Params[0]
+				inner := func(x ssa.Instruction) bool {
+					ifi, ok := x.(*ssa.If)
+					if !ok {
+						return false
+					}
+					bin, ok := ifi.Cond.(*ssa.BinOp)
+					if !ok || bin.Op != token.EQL {
+						return false
+					}
+					if k, ok := constInt(bin.Y); !ok || k != 0 {
+						return false
+					}
+					ld, ok := bin.X.(*ssa.UnOp)
+					if !ok || ld.Op != token.MUL || !isFieldAddrOf(ld.X, envT, "depth") || ld.X.(*ssa.FieldAddr).X != ssa.Value(recv) {
+						return false
+					}
+					for _, y := range ifi.Block().Succs[0].Instrs {
+						if isIncrOf(y, "numSet", recv) {
+							return true
+						}
+					}
+					return false
+				}
+				return mustPassFromEntry(callee, inner, isReturn) == nil
+			}
 			ifi, ok := in.(*ssa.If)
 			if !ok {
 				return false
